@@ -10,7 +10,7 @@ CONSTANTS Pool,     \* "timers" | "fam46" | "fam4v" | "fam6v" | "as"
 
 (* P(...) = the pick with the pool's factors set and every other factor at its base value *)
 P(las, pm, l4, l6, lv, lh, lk, lg, ra, rh, r4, r6, rv, ro, re, rg, ly, od) ==
-  <<las, pm, l4, l6, lv, lh, lk, lg, ra, rh, r4, r6, rv, ro, re, rg, ly, od>>
+  <<las, pm, l4, l6, lv, lh, lk, lg, ra, rh, r4, r6, rv, ro, re, rg, ly, od, 2>>
 N(i) == 1..FactorSizes[i]
 PoolPicks ==
   CASE Pool = "timers" ->
